@@ -19,6 +19,7 @@ CONSTANTS
   MaxNet = 3
   W = {}
   MayTimeout = {a, b, c}
+  MayLink = {}
   Gen = FALSE
 SPECIFICATION Spec
 INVARIANTS ElectionSafety NoViolation NoStaleRead TypeOK
